@@ -495,7 +495,15 @@ class BuiltinMixin:
         if isinstance(v, VTuple):
             return [(st, VInt(z3.IntVal(len(v.items))))]
         if isinstance(v, VRange):
-            return [(st, VInt(zmax(v.stop - v.start, z3.IntVal(0))))]
+            n = zmax(v.stop - v.start, z3.IntVal(0))
+            if self.config and getattr(self.config, "int_str_limit", False):
+                # machine limits are modelled (C02): len() of a range with more than sys.maxsize
+                # items raises OverflowError
+                outs = []
+                for s, big in self.branch(st, n > 2**63 - 1):
+                    outs.append(self.raised(s, "OverflowError", "Python int too large to convert to C ssize_t") if big else (s, VInt(n)))
+                return outs
+            return [(st, VInt(n))]
         if isinstance(v, VRef):
             h = st.deref(v)
             if isinstance(h, HList):
@@ -658,6 +666,18 @@ class BuiltinMixin:
             seq = z3.Function("range_items", I, I, SeqU)(v.start, v.stop)
             i = fresh("ri", I)
             n = zmax(v.stop - v.start, z3.IntVal(0))
+            if self.config and getattr(self.config, "int_str_limit", False):
+                # machine limits modelled: a range with more than sys.maxsize items can be iterated
+                # but its items are never materialised as a sequence (no facts about them)
+                out = []
+                for s, big in self.branch(st, n > 2**63 - 1):
+                    if big:
+                        out.append((s, s.alloc(HIter(z3.Function("huge_range_items", I, I, SeqU)(v.start, v.stop), z3.IntVal(0)))))
+                    else:
+                        s.assume(z3.Length(seq) == n)
+                        s.assume(z3.ForAll([i], z3.Implies(z3.And(i >= 0, i < n), seq[i] == U.int(v.start + i))))
+                        out.append((s, s.alloc(HIter(seq, z3.IntVal(0)))))
+                return out
             st.assume(z3.Length(seq) == n)
             st.assume(z3.ForAll([i], z3.Implies(z3.And(i >= 0, i < n), seq[i] == U.int(v.start + i))))
         if seq is None:
